@@ -9,7 +9,8 @@ DEEP = {"quick": 56, "thorough": 112}
 
 def full_box(tier):
     N = BOUNDS[tier]
-    return D.box(N, tier) + D.box_deep(N, DEEP[tier], tier)
+    return D.box(N, tier) + D.box_deep(N, DEEP[tier], tier) + \
+        D.box_large(tier)
 
 RULES = {
     "C01": "configurations whose stream loads at least one checkpoint "
